@@ -450,7 +450,8 @@ func (s *RawStub) serveConn(c net.Conn, connID int64) {
 			reply = &RawReply{Status: 200, Headers: []RawHeader{{"Content-Type", "text/plain"}, {"X-Verif-Stub", s.Name}}, Body: []byte("ok " + s.Name), Framing: "cl"}
 		}
 		isUpgrade := strings.EqualFold(seen.Header.Get("Connection"), "upgrade") && seen.Header.Get("Upgrade") != ""
-		if !isUpgrade {
+		{
+			// the body is read per its framing on the upgrade handshake as well (a proxy may send an empty chunked body)
 			h := sha256.New()
 			n, berr := io.Copy(h, req.Body)
 			s.mu.Lock()
@@ -527,6 +528,10 @@ func (s *RawStub) ProbeCount() int { return int(atomic.LoadInt64(&s.probes)) }
 func (s *RawStub) Forget(id string) {
 	s.mu.Lock()
 	delete(s.scripts, id)
+	for _, i := range s.byID[id] {
+		s.seen[i] = RawSeen{ID: id}
+	}
+	delete(s.byID, id)
 	s.mu.Unlock()
 }
 
